@@ -45,9 +45,13 @@ fn decoders_v<V: Fv>(ctx: &Ctx, rep: &mut Report) {
         rep.inconclusive(format!("keygen panicked for seed {}: {} (reported by C04/C15)", hex(&s), p.message));
     }
     let mut valids: Vec<(Ty, Vec<u8>)> = vec![];
+    let sign_ok = keys.first().map(|k| crate::signer::canary::<V>(&k.sk)).unwrap_or(false);
     for k in &keys {
         valids.push((Ty::Pk, V::pk_to_bytes(&k.pk)));
         valids.push((Ty::Sk, V::sk_to_bytes(&k.sk)));
+        if !sign_ok {
+            continue; // synthetic signatures below still exercise the decoder
+        }
         if let Ok(sig) = monitored(|| V::sign(b"c03", &k.sk)) {
             valids.push((Ty::Sig, V::sig_to_bytes(&sig)));
         }
@@ -141,7 +145,7 @@ fn verify_hostile_v<V: Fv>(ctx: &Ctx, rep: &mut Report) {
         .filter_map(|(n, b)| V::pk_from_bytes(&b).ok().map(|p| (n, b, p)))
         .collect();
     let rounds = ctx.sz(1, 10);
-    let honest: Vec<Vec<u8>> = (0..4).filter_map(|i| monitored(|| V::sig_to_bytes(&V::sign(&[i as u8; 3], &k.sk))).ok()).collect();
+    let honest: Vec<Vec<u8>> = if crate::signer::canary::<V>(&k.sk) { (0..4).filter_map(|i| monitored(|| V::sig_to_bytes(&V::sign(&[i as u8; 3], &k.sk))).ok()).collect() } else { vec![] };
     let r = par_for(rounds * pks.len(), ncpu(), |job, rep| {
         let (pkname, pkb, pk) = &pks[job % pks.len()];
         let mut rng = rng_for(ctx.seed, &format!("c03-vh-{}-{}", V::NAME, job));
